@@ -32,6 +32,7 @@ def main(argv=None):
     ctx = common.Ctx(pid, args.tier, args.seed)
     try:
         if args.replay:
+            ctx.replaying = True
             rc = mod.replay(ctx, args.replay)
         elif args.selftest:
             rc = mod.selftest(ctx)
